@@ -51,12 +51,24 @@ type journalSession struct {
 	realID map[int]int
 	snapP  map[int]*Proj
 	snapAt map[int]int
+	tx     int // transactions finalised so far on this StateDB (index of the running one)
+	nsnap  int // Snapshot calls so far (the spec numbers snapshots per behaviour)
+	idBase int // revision ids of a re-opened StateDB start at 0 again: spec id = real id + idBase
 }
 
 func newJournalSession(w *World) *journalSession {
 	s := w.NewState()
-	s.Prepare(thash, 0)
+	s.Prepare(txHash(0), 0)
 	return &journalSession{w: w, s: s, r: newResolver(w.U), realID: map[int]int{}, snapP: map[int]*Proj{}, snapAt: map[int]int{}}
+}
+
+func hasOp(steps []Step, op string) bool {
+	for _, st := range steps {
+		if st.Op == op {
+			return true
+		}
+	}
+	return false
 }
 
 func (js *journalSession) do(i int, st *Step) (res []interface{}) {
@@ -107,7 +119,29 @@ func (js *journalSession) do(i int, st *Step) (res []interface{}) {
 	case "snapshot":
 		id := s.Snapshot()
 		js.realID[st.ID] = id
-		return []interface{}{"id", float64(id)}
+		js.nsnap++
+		return []interface{}{"id", float64(id + js.idBase)}
+	case "txend":
+		// between two transactions of a block, core/state_processor.go: applyTransaction ends with
+		// statedb.Finalize(true); Process prepares the next transaction with statedb.Prepare(hash, index)
+		s.Finalize(true)
+		js.tx++
+		s.Prepare(txHash(js.tx), js.tx)
+	case "blockend":
+		// end of the block: Commit (Finalize + IntermediateRoot + write-out); the next block opens a new StateDB
+		// at the committed root
+		root, err := s.Commit(true)
+		if err != nil {
+			return []interface{}{"commit-error", err.Error()}
+		}
+		ns, err := js.w.StateAt(root, s.GetQuaiTrieSize())
+		if err != nil {
+			return []interface{}{"reopen-error", err.Error()}
+		}
+		js.s = ns
+		js.tx = 0
+		js.idBase = js.nsnap
+		ns.Prepare(txHash(0), 0)
 	case "revert":
 		id, known := js.realID[st.ID]
 		if !known {
@@ -168,6 +202,9 @@ func assignCauses(classes []string, accts map[string][]int, causeFn func(class s
 // runJournal executes one behaviour; expectations (Res, Vis) present => compared.  Returns the findings
 // of the first deviating step and the observed events up to it (for trace validation).
 func runJournal(w *World, bi int, steps []Step, wantEvents bool) (fs []Finding, events []map[string]interface{}, nrev int) {
+	if hasOp(steps, "blockend") {
+		w = buildWorld(w.U) // Commit writes into the state database: not on the world shared by the workers
+	}
 	js := newJournalSession(w)
 	u := w.U
 	for i := range steps {
@@ -239,7 +276,15 @@ func genJournalTrace(w *World, rnd *rand.Rand, n, maxDepth int, avoidKnown bool)
 		st := Step{}
 		a := pickA()
 		ia := iaddr(addrOf(a))
-		switch x := rnd.Intn(100); {
+		switch x := rnd.Intn(104); {
+		case x >= 103:
+			// end of the block: Commit, re-open at the new root (every live snapshot dies)
+			st = Step{Op: "blockend"}
+			live = live[:0]
+		case x >= 100:
+			// end of the transaction: Finalize(true) + Prepare (every live snapshot dies)
+			st = Step{Op: "txend"}
+			live = live[:0]
 		case x < 8:
 			st = Step{Op: "addbalance", A: a, V: int64(rnd.Intn(3))}
 		case x < 14:
